@@ -1685,6 +1685,14 @@ func (pc *PartitionContext) moveTerminatedApp(appID string) {
 			zap.String("appID", appID))
 		return
 	}
+	// The callback runs asynchronously and is keyed by ID only: the terminated application may have been removed
+	// and a new application registered under the same ID in the meantime. Never move a live application.
+	if !app.IsCompleted() && !app.IsFailed() && !app.IsExpired() {
+		log.Log(log.SchedPartition).Info("Application registered again under the ID of a terminated application, not moving it",
+			zap.String("appID", appID),
+			zap.String("app status", app.CurrentState()))
+		return
+	}
 	app.UnSetQueue()
 	// new ID as completedApplications map key, use negative value to get a divider
 	newID := appID + strconv.FormatInt(-(time.Now()).Unix(), 10)
